@@ -89,18 +89,26 @@ def expected_caps(cfg):
 
 
 LOCAL_ADDRS = ['192.0.2.1', '198.51.100.7', '203.0.113.200', '10.255.0.1']
+# a peering over IPv6: the local end of the socket is an IPv6 address (numerically large, link-local, and below 2^32)
+LOCAL_ADDRS6 = ['2001:db8::1', 'fe80::1', '::1', '2001:db8:ffff:ffff:ffff:ffff:ffff:ffff', '::a00:1']
 
 
 def mk_world(cfg):
     # multihomed: no local address configured, the socket's local end differs from one connection to the next
+    kw = {}
+    if cfg.get('v6'):
+        kw = dict(remote_addr='2001:db8::2', local_addr='::' if cfg.get('multihomed') else LOCAL_ADDRS6[cfg['v6'] % len(LOCAL_ADDRS6)])
+    elif cfg.get('multihomed'):
+        kw = dict(local_addr='0.0.0.0')
     return World(local_as=cfg['local_as'], remote_as=cfg['remote_as'], time_opts={'hold_time': cfg['hold'], 'idle_hold_time': 5},
-                 bgp_opts=cfg['bgp'], **({'local_addr': '0.0.0.0'} if cfg.get('multihomed') else {}))
+                 bgp_opts=cfg['bgp'], **kw)
 
 
 def next_connection(w):
     if getattr(w, 'multihomed', False):
         w.n_conn = getattr(w, 'n_conn', 0) + 1
-        reactor.local_host = LOCAL_ADDRS[w.n_conn % len(LOCAL_ADDRS)]
+        pool = LOCAL_ADDRS6 if getattr(w, 'v6', False) else LOCAL_ADDRS
+        reactor.local_host = pool[w.n_conn % len(pool)]
     g = 0
     while not w.pending() and g < 50:
         if not w.tick():
@@ -286,6 +294,7 @@ def run_case(case, V, stats):
     rng = random.Random(case['seed'])
     w = mk_world(cfg)
     w.multihomed = bool(cfg.get('multihomed'))
+    w.v6 = bool(cfg.get('v6'))
     first = None
     ctx0 = 'cfg(local %s remote %s hold %s %s)' % (cfg['local_as'], cfg['remote_as'], cfg['hold'], {k: v for k, v in cfg['bgp'].items()})
     for i, po in enumerate(case['history']):
@@ -323,6 +332,8 @@ def gen_cases(rng, n):
         cfg = dict(local_as=la, remote_as=ra, hold=rng.choice(CFG_HOLDS), bgp=bgp)
         if rng.random() < 0.25:
             cfg['multihomed'] = True
+        if rng.random() < 0.15:
+            cfg['v6'] = rng.randint(1, 5)
         hist = [rand_peer(rng, cfg) for _ in range(rng.choice([0, 0, 1, 2, 3, 4]))]
         yield dict(cfg=cfg, history=hist, peer=rand_peer(rng, cfg, good=rng.random() < 0.7), seed=rng.randrange(1 << 30))
 
@@ -353,6 +364,10 @@ def systematic_cases():
                     yield dict(cfg=cfg, history=hist * 2, peer=dict(ver=4, asn=65002, hold=90, caps='mp'), seed=4)
                     if hh == 30:
                         yield dict(cfg=dict(cfg, multihomed=True), history=hist * 2, peer=dict(ver=4, asn=65002, hold=90, caps='mp+rr+as4'), seed=5)
+                        yield dict(cfg=dict(cfg, multihomed=True, v6=1), history=hist * 2, peer=dict(ver=4, asn=65002, hold=90, caps='mp+rr+as4'), seed=5)
+                    if phase == 'established' and ch == 180:
+                        for v6 in range(1, 6):
+                            yield dict(cfg=dict(cfg, v6=v6), history=hist if v6 % 2 else [], peer=dict(ver=4, asn=65002, hold=90, caps='mp'), seed=6)
     # every capability-switch subset with a poor and a rich peer before the observed session
     for bits in itertools.product([False, True], repeat=4):
         bgp = dict(zip(['four_bytes_as', 'route_refresh', 'cisco_route_refresh', 'enhanced_route_refresh'], bits))
